@@ -211,6 +211,7 @@ cgsitrf(superlu_options_t *options, SuperMatrix *A, int relax, int panel_size,
     singlecomplex    *dense, *tempv;
     float *stempv;
     int       *relax_end, *relax_fsupc;
+    int       *descendants; /* scratch for the relaxed-supernode search */
     singlecomplex    *a;
     int_t     *asub;
     int_t     *xa_begin, *xa_end;
@@ -313,10 +314,13 @@ cgsitrf(superlu_options_t *options, SuperMatrix *A, int relax, int panel_size,
     /* Identify relaxed snodes */
     relax_end = (int *) intMalloc(n);
     relax_fsupc = (int *) intMalloc(n);
+    /* scratch of n entries: marker[] holds only NO_MARKER*m, too few when n > 3m */
+    descendants = (int *) int32Malloc(n + 1);
     if ( options->SymmetricMode == YES )
-	ilu_heap_relax_snode(n, etree, relax, marker, relax_end, relax_fsupc);
+	ilu_heap_relax_snode(n, etree, relax, descendants, relax_end, relax_fsupc);
     else
-	ilu_relax_snode(n, etree, relax, marker, relax_end, relax_fsupc);
+	ilu_relax_snode(n, etree, relax, descendants, relax_end, relax_fsupc);
+    SUPERLU_FREE (descendants);
 
     ifill (perm_r, m, SLU_EMPTY);
     ifill (marker, m * NO_MARKER, SLU_EMPTY);
